@@ -299,7 +299,7 @@ fn run_one(v: &Variant, faults: Faults<Msg>, ch: &Chooser, late: bool) -> Obs {
         }));
     }
     let result: Rc<RefCell<Res>> = Rc::new(RefCell::new(Res::Pending));
-    own_select_capped(ch, 48);
+    own_select_capped(ch, 16);
     let end = {
         let result = result.clone();
         catch(|| {
